@@ -7,6 +7,7 @@ import (
 	"encoding/json"
 	"fmt"
 	"strings"
+	"sync/atomic"
 
 	"google.golang.org/grpc"
 	"google.golang.org/grpc/balancer"
@@ -57,10 +58,10 @@ func poolVariants(thorough bool) []*pb.ChannelPoolConfig {
 }
 
 func methodEntries() []*pb.MethodConfig {
-	names := [][]string{nil, {"m1"}, {"m2"}, {"m1", "m2"}, {"m1", "m1"}}
+	names := [][]string{nil, {"m1"}, {"m2"}, {"m1", "m2"}, {"m1", "m1"}, {"/s/*"}}
 	affs := []*pb.AffinityConfig{nil, {}}
 	for _, cmd := range []pb.AffinityConfig_Command{0, 1, 2} {
-		for _, k := range []string{"", "k"} {
+		for _, k := range []string{"", "k", "key"} {
 			affs = append(affs, &pb.AffinityConfig{Command: cmd, AffinityKey: k})
 		}
 	}
@@ -258,6 +259,7 @@ func (x *c17) oneConfig(cfg *pb.ApiConfig, desc string) {
 			x.report("C17.P3", "method without an affinity entry is mapped", fmt.Sprintf("%q in %v", n, cfg.GetMethod()))
 		}
 	}
+	x.probeMethods(b, gb, cc, cfg, count, want)
 	if cfg != nil {
 		// P4: caller's object untouched and not aliased
 		nowBytes, _ := proto.MarshalOptions{Deterministic: true}.Marshal(cfg)
@@ -324,6 +326,82 @@ func (x *c17) oneConfig(cfg *pb.ApiConfig, desc string) {
 		if gb2.cfg == nil || !proto.Equal(gb2.cfg.ApiConfig, exp) {
 			x.report("C17.P5", "configuration reset by a later resolver update without a configuration", fmt.Sprintf("first %v, now %v", exp, gb2.cfg))
 		}
+	}
+}
+
+// P3 (behaviour): the method table is judged by what picks DO, not only by its
+// content: every probed method name - listed ones, unlisted siblings, names
+// that share a prefix or a service with a listed one, wildcard look-alikes -
+// goes through a real Pick and completion on a READY pool. A method that is
+// not listed must be treated as a plain call (no error, least-busy placement,
+// no key bound or unbound by its reply); a method listed once with a key path
+// that resolves must show its entry's command.
+func (x *c17) probeMethods(b balancer.Balancer, gb *gcpBalancer, cc *fakeCC, cfg *pb.ApiConfig, count map[string]int, want map[string]*pb.AffinityConfig) {
+	for _, sc := range cc.scs {
+		b.UpdateSubConnState(sc, balancer.SubConnState{ConnectivityState: connectivity.Connecting})
+		b.UpdateSubConnState(sc, balancer.SubConnState{ConnectivityState: connectivity.Ready})
+	}
+	pub := cc.latest()
+	if pub == nil || pub.state != connectivity.Ready || len(cc.scs) == 0 {
+		return
+	}
+	boundSC := cc.scs[len(cc.scs)-1]
+	boundRef := gb.scRefs[boundSC]
+	if boundRef == nil {
+		return
+	}
+	multi := len(cc.scs) >= 2
+	for i, n := range []string{"m1", "m2", "m3", "m", "m1x", "/s/*", "/s/a", "/s/", "/t/a", "*", ""} {
+		if count[n] > 1 {
+			continue // listed more than once: not judged
+		}
+		kq, kr := fmt.Sprintf("kq%d", i), fmt.Sprintf("kr%d", i)
+		gb.bindSubConn(kq, boundSC)
+		atomic.AddInt32(&boundRef.streamsCnt, 1) // the bound channel is never the least busy one
+		g := &gcpContext{reqMsg: &reqMsg{Key: kq}}
+		res, err := pub.picker.Pick(balancer.PickInfo{FullMethodName: n, Ctx: context.WithValue(context.Background(), gcpKey, g)})
+		atomic.AddInt32(&boundRef.streamsCnt, -1)
+		a := want[n]
+		listed := count[n] == 1
+		what := fmt.Sprintf("method %q with %v", n, cfg.GetMethod())
+		if err != nil {
+			if !listed {
+				x.report("C17.P3", "a method that is not listed is treated as an affinity method (pick fails on the key lookup)", what+": "+err.Error())
+			}
+			gb.unbindSubConn(kq)
+			continue
+		}
+		routedByKey := multi && res.SubConn == balancer.SubConn(boundSC)
+		g.replyMsg = &replyMsg{Key: []string{kr}}
+		if res.Done != nil {
+			res.Done(balancer.DoneInfo{})
+		}
+		gb.mu.RLock()
+		_, bound := gb.affinityMap[kr]
+		_, still := gb.affinityMap[kq]
+		gb.mu.RUnlock()
+		switch {
+		case !listed:
+			if routedByKey || bound || !still {
+				x.report("C17.P3", "a method that is not listed is treated as an affinity method", fmt.Sprintf("%s: routed by key=%v, reply key bound=%v, request key still bound=%v", what, routedByKey, bound, still))
+			}
+		case a.GetAffinityKey() == "key":
+			x.nt["probe|"+what] = true
+			ok := true
+			switch a.GetCommand() {
+			case pb.AffinityConfig_BIND:
+				ok = bound
+			case pb.AffinityConfig_BOUND:
+				ok = !multi || routedByKey
+			case pb.AffinityConfig_UNBIND:
+				ok = !still
+			}
+			if !ok {
+				x.report("C17.P3", "a method listed once does not behave as its entry says", fmt.Sprintf("%s: command %v; routed by key=%v, reply key bound=%v, request key still bound=%v", what, a.GetCommand(), routedByKey, bound, still))
+			}
+		}
+		gb.unbindSubConn(kq)
+		gb.unbindSubConn(kr)
 	}
 }
 
